@@ -300,7 +300,8 @@ class Request(Message):
             if idx < 0 and not done:
                 # only an unterminated header block counts against the buffer
                 # limit, never body or pipelined bytes received along with it
-                if len(data) > self.max_buffer_headers:
+                # (up to three bytes of it may be the terminator arriving)
+                if len(data) - 3 > self.max_buffer_headers:
                     raise LimitRequestHeaders("max buffer headers")
                 self.get_data(unreader, buf)
                 data = buf.getvalue()
@@ -310,6 +311,11 @@ class Request(Message):
         if done:
             self.unreader.unread(data[2:])
             return b""
+
+        # the same header block must meet the same fate however it was split
+        # into reads: apply the cap to a block that arrived complete, too
+        if idx > self.max_buffer_headers:
+            raise LimitRequestHeaders("max buffer headers")
 
         self.headers = self.parse_headers(data[:idx], from_trailer=False)
 
